@@ -184,6 +184,19 @@ def run(ck):
         ck.ob("TAB", "%s import policy" % ver, "validated-names-are-translatable", not only_v, "%d names accepted by validation, all translatable by the compiler" % len(nv - mods) if not only_v else "accepted but not translatable: %s" % only_v, vf.loc())
         ck.ob("TAB", "%s import policy" % ver, "translatable-names-are-validated", not only_t, "no host function is translatable without being validated" if not only_t else "translatable but never validated: %s" % only_t, tf.loc())
         ck.floor("TAB", "%s host import names" % ver, len(nv - mods), 20 if ver == "v0" else 34)
+        # per permitted name the declared parameter list is compared as a WHOLE with the permitted one: slice equality
+        # (`params == ty.parameters.as_slice()`), `is_empty()`, or an element-wise walk under an enforced equality of the
+        # lengths. An element-wise walk alone (zip) accepts every prefix and every extension of the permitted signature
+        as_sl = vf.calls(r"Vec::<T, A>::as_slice$")
+        emp = vf.calls(r"Vec::<T, A>::is_empty$")
+        zips = vf.calls(ZIP_CALL)
+        guarded = [z for z in zips if any(k == "cmp:Eq" and v is True and "len" in nn for (k, nn, v) in conditions_at(vf, z[0]))]
+        whole = len(as_sl) + len(emp) + len(guarded)
+        okw = whole >= len(nv - mods) and len(guarded) == len(zips)
+        ck.ob("CMP", vf.path, "import-signature-compared-whole", okw,
+              "%d whole-list comparisons of the declared parameters (%d slice equalities, %d is_empty, %d length-guarded walks) for %d permitted names" % (whole, len(as_sl), len(emp), len(guarded), len(nv - mods)) if okw else
+              "%d permitted names but only %d whole-list comparisons of the declared parameters (%d element-wise walks without an equality of the lengths): a host function is accepted with a prefix or an extension of its signature" % (len(nv - mods), whole, len(zips) - len(guarded)),
+              vf.loc(zips[0][0]) if zips else vf.loc())
         acc, rej = vf.accept_points()
         ck.ob("TAB", vf.path, "unknown-import-rejected", len(rej) >= 2, "%d constant-false returns (duplicate, unknown module, unknown name)" % len(rej), vf.loc(), nontrivial=False)
         ef = find_impl(ck, "sc", E, r"%s::types::ConcordiumAllowedImports$" % ver, r"ValidateImportExport$", "validate_export_function")
